@@ -68,17 +68,102 @@ pub fn big(sink: &mut Sink, cfg: &str) {
     }
 }
 
+/// string literals: every ordered pair of \uXXXX escapes over the surrogate-class boundaries, lone escapes at the
+/// boundaries, every simple escape, both hex cases, pairs at plane boundaries — as values and as object keys
+pub fn strings(sink: &mut Sink, cfg: &str, r: &mut Rng, thorough: bool) {
+    let bounds: [u32; 16] = [0x0000, 0x001f, 0x0020, 0x007f, 0x0080, 0x07ff, 0x0800, 0xd7ff, 0xd800, 0xd801, 0xdbff, 0xdc00, 0xdc01, 0xdfff, 0xe000, 0xffff];
+    for a in bounds.iter() {
+        let one = format!("\"\\u{:04x}\"", a);
+        emit(sink, cfg, one.as_bytes(), r, "uni1");
+        emit(sink, cfg, format!("{{{}:1}}", one).as_bytes(), r, "uni1key");
+        emit(sink, cfg, format!("\"\\u{:04X}x\"", a).as_bytes(), r, "uni1");
+        for b in bounds.iter() {
+            emit(sink, cfg, format!("\"\\u{:04x}\\u{:04X}\"", a, b).as_bytes(), r, "uni2");
+            emit(sink, cfg, format!("\"a\\u{:04x}\\u{:04x}z\"", a, b).as_bytes(), r, "uni2");
+        }
+    }
+    // every plane: first, middle and last scalar written as a surrogate pair
+    for plane in 1..=16u32 {
+        for off in [0u32, 1, 0x7fff, 0xfffe, 0xffff] {
+            let cp = plane * 0x10000 + off; let v = cp - 0x10000;
+            let (hi, lo) = (0xd800 + (v >> 10), 0xdc00 + (v & 0x3ff));
+            emit(sink, cfg, format!("\"\\u{:04x}\\u{:04x}\"", hi, lo).as_bytes(), r, "pair");
+            emit(sink, cfg, format!("[\"\\u{:04X}\\u{:04X}\\u{:04x}\\u{:04x}\"]", hi, lo, hi, lo).as_bytes(), r, "pair");
+        }
+    }
+    for c in 0..=255u8 { emit(sink, cfg, &[b'"', b'\\', c, b'"'], r, "esc1"); }
+    let n = if thorough { 20000 } else { 2000 };
+    for _ in 0..n {
+        let hi = 0xd800 + r.below(0x400) as u32; let lo = 0xdc00 + r.below(0x400) as u32;
+        emit(sink, cfg, format!("\"\\u{:04x}\\u{:04x}\"", hi, lo).as_bytes(), r, "pair-rand");
+    }
+}
+
+#[derive(serde::Deserialize)]
+#[allow(dead_code)]
+enum Nest { A(Box<Nest>), L(Vec<Nest>), S { x: Box<Nest> }, N }
+
+/// C14: typed targets — every mix of arrays and enum wrappers around depth 126..129
+pub fn typed_depth(sink: &mut Sink, cfg: &str, r: &mut Rng) {
+    for d in [1usize, 2, 50, 126, 127, 128, 129, 140] {
+        for mix in 0..6 {
+            let mut open = String::new(); let mut close = String::new();
+            for i in 0..d {
+                let k = match mix { 0 => 0, 1 => 1, 2 => 2, 3 => i % 3, 4 => if i + 1 == d { 1 } else { 0 }, _ => r.below(3) };
+                match k { 0 => { open.push_str("{\"L\":["); close.insert_str(0, "]}"); }
+                          1 => { open.push_str("{\"A\":"); close.insert(0, '}'); }
+                          _ => { open.push_str("{\"S\":{\"x\":"); close.insert_str(0, "}}"); } }
+            }
+            // containers opened: `[` and `{"A":` count one level, `{"S":{"x":` counts two
+            let levels: usize = { let mut n = 0; let b = open.as_bytes(); let mut i = 0; while i < b.len() { if b[i] == b'[' || b[i] == b'{' { n += 1; } i += 1; } n };
+            let doc = format!("{}\"N\"{}", open, close);
+            // a Vec<Nest> element list needs the enum inside: wrap scalars accordingly
+            let o = std::panic::catch_unwind(|| match serde_json::from_str::<Nest>(&doc) { Ok(_) => "ok".to_string(), Err(e) => format!("err:{}", hex(e.to_string().split(" at line").next().unwrap_or("").as_bytes())) }).unwrap_or("PANIC".into());
+            sink.case("tdepth", &[cfg, &levels.to_string(), &mix.to_string()], &o, &format!("tdepth:{}", if levels > 127 { "deep" } else { "ok" }), true);
+        }
+    }
+}
+
+/// C14 (unbounded_depth): with the limit disabled deeper documents parse — directly and through a stream
+#[cfg(feature = "ud")]
+pub fn unbounded(sink: &mut Sink, cfg: &str) {
+    use serde::Deserialize;
+    for d in [127usize, 128, 129, 200, 1000] {
+        let doc = format!("{}{}", "[".repeat(d), "]".repeat(d));
+        let run = |mode: &str| -> String {
+            let doc = doc.clone(); let mode = mode.to_string();
+            std::thread::Builder::new().stack_size(256 << 20).spawn(move || {
+                let mut de = serde_json::Deserializer::from_str(&doc);
+                if mode != "limited" { de.disable_recursion_limit(); }
+                let r = if mode == "stream" { de.into_iter::<serde_json::Value>().next().unwrap_or(Ok(serde_json::Value::Null)).map(|v| { std::mem::forget(v); }) }
+                        else { serde_json::Value::deserialize(&mut de).map(|v| { std::mem::forget(v); }) };
+                match r { Ok(_) => "ok".to_string(), Err(e) => format!("err:{}", cat_name(&e)) }
+            }).unwrap().join().unwrap_or("PANIC".into())
+        };
+        for mode in ["limited", "direct", "stream"] {
+            sink.case("udepth", &[cfg, mode, &d.to_string()], &run(mode), &format!("udepth:{}", mode), true);
+        }
+    }
+}
+
 pub fn run(sink: &mut Sink, prop: &str, thorough: bool, seed: u64) {
     let mut r = Rng::new(seed);
     let cfg = cfg_tag();
     if prop == "C14" {
         big(sink, &cfg);
+        typed_depth(sink, &cfg, &mut r);
+        #[cfg(feature = "ud")]
+        unbounded(sink, &cfg);
         // random bytes
         for _ in 0..(if thorough { 200000 } else { 20000 }) {
             let n = r.below(24);
             let b: Vec<u8> = (0..n).map(|_| if r.chance(3, 4) { *r.pick(b"[]{},:\"\\u0123456789aeE+-.ntfls \n") } else { r.next() as u8 }).collect();
             emit(sink, &cfg, &b, &mut r, "rand");
         }
+    }
+    if prop == "C05" || prop == "C14" || prop == "C02" || prop == "C01" {
+        strings(sink, &cfg, &mut r, thorough);
+        if prop == "C05" { return; }
     }
     if prop == "C09" || prop == "C11" {
         // multi-line documents and their mutations, several chunkings each
@@ -98,6 +183,13 @@ pub fn run(sink: &mut Sink, prop: &str, thorough: bool, seed: u64) {
         let mut inputs: Vec<Vec<u8>> = vec![];
         exhaustive(&toks, len, shard, nshards, |b| inputs.push(b.to_vec()));
         for b in inputs { emit(sink, &cfg, &b, &mut r, &format!("exh{}", len)); }
+    }
+    // every byte value in every lexical position (whitespace slots, inside strings, inside numbers, after escapes)
+    for b in 0..=255u8 {
+        let pats: [Vec<u8>; 10] = [vec![b], vec![b, b'1'], vec![b'1', b], [b"[1,".as_ref(), &[b], b"2]"].concat(), [b"{\"a\"".as_ref(), &[b], b":1}"].concat(),
+            [b"\"".as_ref(), &[b], b"\""].concat(), [b"\"\\".as_ref(), &[b], b"\""].concat(), [b"1".as_ref(), &[b], b"5"].concat(), [b"[".as_ref(), &[b], b"]"].concat(),
+            [b"\"\\u00".as_ref(), &[b], b"0\""].concat()];
+        for p in pats.iter() { emit(sink, &cfg, p, &mut r, "byte"); }
     }
     depth_profiles(sink, &cfg, &mut r);
     let docs = if thorough { 30000 } else { 3000 };
